@@ -148,6 +148,7 @@ def s_iter_map(e, st, callee, args, dty):
         ps = closure_paths(e, st, args[1], [it])
         if len(ps) != 1 or ps[0][0]:
             return NotImplemented
+        st.events.extend(ps[0][2])      # calls made by the closure body happen in the caller's path
         out.append(ps[0][1])
     return ListV(out, "iter")
 
@@ -164,6 +165,7 @@ def s_iter_flat_map(e, st, callee, args, dty):
         r = deref_val(e, st, ps[0][1])
         if not isinstance(r, ListV):
             return NotImplemented
+        st.events.extend(ps[0][2])
         out += list(r.items)
     return ListV(out, "iter")
 
